@@ -121,7 +121,9 @@ class IlluminaExonCorrector:
             #if (i[0] == sh[0] or i[1] == sh[1]) and sh[0] >= exons[0][0] and sh[1] <= exons[-1][1] and self.counts[(sh[0]-1,sh[1])] > 100:
             
             # if the best single match differs by 4 it is usually good to correct
-            if ((i[0] == sh[0] and i[1] == sh[1]-4) or (i[1] == sh[1] and sh[0] == i[0]-4)):
+            # (the match must leave the terminal read exons non-empty: it lies inside the read)
+            if ((i[0] == sh[0] and i[1] == sh[1]-4) or (i[1] == sh[1] and sh[0] == i[0]-4)) and \
+                    sh[0] > exons[0][0] and sh[1] < exons[-1][1]:
             #if ((i[1] == sh[1]-4) or (sh[0] == i[0]-4)) and sh[0] >= exons[0][0] and sh[1] <= exons[-1][1]:
                 corrected_introns.append(sh)
                 appended = True
